@@ -397,6 +397,11 @@ def run(ctx):
                      c.lang or corpus.lang_of(c.inp)))
     fres = pmap_proc(_file_job, [(unc, tmp, i, j) for i, j in enumerate(jobs)], nproc=14)
     fevs = [e for e, j in fres]
+    # the generated programs are valid: a run that refuses one judges nothing (that is how 'y ? t[a ? 0 : 1] : 0' went unnoticed)
+    refused = sorted({e["id"] for e in fevs if e["rc"] != 0 and e["id"].split("|")[0] in ("one", "sort") and "modprog" in e["id"]})
+    ctx.cov["generated_program_runs_refused"] = len(refused)
+    if refused:
+        ctx.error("vacuity: uncrustify refuses a generated (valid) program under a single mod_ option: %s" % ", ".join(refused[:5]))
     allev = evs + fevs
     ctx.cov["evaluations"] = len(allev)
     ctx.cov["tree_programs_run"] = len(evs)
